@@ -246,6 +246,10 @@ private:
         if (!sub_id.has_value())
             return error_code {};
 
+        // a SUBSCRIBE packet carries at most one Subscription Identifier
+        if (sub_id.size() > 1)
+            return client::error::malformed_packet;
+
         auto sub_id_available = _svc_ptr->connack_property(
             prop::subscription_identifier_available
         ).value_or(1);
